@@ -160,10 +160,31 @@ class Unit:
         # (cheap way: edits never merge lines we care about, so pad at the end of each replaced span)
         return new
 
+    def load_template(self, path, exported_only=False):
+        lines = open(path).read().split('\n')
+        if exported_only:
+            try:
+                a = lines.index('//@begin-export')
+                b = lines.index('//@end-export')
+            except ValueError:
+                raise Undecided('template error: %s has no export section' % path)
+            lines = lines[a + 1:b]
+        outl = []
+        for ln in lines:
+            st = ln.strip()
+            if st.startswith('//@import '):
+                other = st.split()[1]
+                outl += self.load_template(os.path.join(UNITS, other, 'unit.vrs'), exported_only=True)
+            elif st in ('//@begin-export', '//@end-export'):
+                continue
+            else:
+                outl.append(ln)
+        return outl
+
     # ---- parsing the template
     def assemble(self, canary=False):
         out = Out()
-        tmpl = open(self.path).read().split('\n')
+        tmpl = self.load_template(self.path)
         i = 0
         n = len(tmpl)
         impl_ctx = None   # dict(file, item, subs, emitted=set(), trait_impl)
@@ -229,6 +250,17 @@ class Unit:
                     out.count('R6', 1)
                 impl_ctx = {'file': rel, 'item': it, 'subs': subs, 'emitted': set(), 'trait_impl': trait_impl,
                             'type': header}
+                pending_skip = set()
+            elif d == 'trait':
+                segs = [x.strip() for x in arg.split(':::')]
+                rel, tname = segs[0], segs[1]
+                it = self.find_item(rel, 'trait', tname)
+                subs = rx.sub_items(it)
+                hdr = it.src[it.sig_begin:it.body_open].rstrip()
+                if 'R4' in self.rules:
+                    hdr = rx.r4_visibility_item(hdr, 'trait')
+                out.emit_src(hdr + ' {', rel, rx.line_of(it.src, it.sig_begin))
+                impl_ctx = {'file': rel, 'item': it, 'subs': subs, 'emitted': set(), 'trait_impl': True, 'type': tname}
                 pending_skip = set()
             elif d == 'endimpl':
                 out.emit('}', {'kind': 'tmpl', 'line': i + 1})
@@ -308,7 +340,13 @@ class Unit:
         return sections
 
     def emit_item(self, out, rel, kind, name, flags):
-        it = self.find_item(rel, kind, name)
+        if 'optional' in flags:
+            try:
+                it = self.find_item(rel, kind, name)
+            except Undecided:
+                return
+        else:
+            it = self.find_item(rel, kind, name)
         text = it.text()
         raw = text
         attrs = [a for a in it.attrs if not DROP_ATTRS.match(a)]
@@ -337,7 +375,10 @@ class Unit:
         text = self.rewrite(text, out, it.name)
         bo, ret, where_pos = rx.fn_signature_parts(text)
         if bo is None:
-            raise Undecided('fn %s has no body' % fid)
+            # trait method declaration: contract goes before the final `;`
+            bo = len(text.rstrip()) - 1
+            if text[bo] != ';':
+                raise Undecided('fn %s has no body' % fid)
         secs = {}
         for s in contract:
             secs.setdefault((s['kind'], s['n']), []).append(s)
